@@ -83,7 +83,7 @@ Definition details_step (strict : bool) (p : payload) (b : list N) : option (pay
         if typ =? wt_varint then
           match dec_u32 b1 with Some (v, b2) => Some (set_ver p v, b2) | None => None end
         else None
-      else if strict && (num =? f_cookie) && negb (typ =? wt_varint) then None
+      else if (num =? f_cookie) && negb (typ =? wt_varint) && strict then None
       else
         match skip_field_pw num typ b1 with Some b2 => Some (p, b2) | None => None end
   end.
@@ -110,7 +110,7 @@ Definition outer_step (strict : bool) (p : payload) (b : list N) : option (paylo
               end
           end
         else None
-      else if strict && (num =? f_hmac) && negb (typ =? wt_bytes) then None
+      else if (num =? f_hmac) && negb (typ =? wt_bytes) && strict then None
       else
         match skip_field_pw num typ b1 with Some b2 => Some (p, b2) | None => None end
   end.
